@@ -8,7 +8,6 @@
 //! calls *inside* the closure passed to `State::holding`, recursively.
 use std::{
     cell::{Ref, RefMut},
-    ops::Deref,
 };
 
 use mahf::{State, StateError};
@@ -20,23 +19,30 @@ use super::{multi_gen, registry::*};
 use crate::{
     tagproblem::TagProblem,
     util::{caught, read_ndjson, rng, Args, Out, NOVAL},
-    with_type,
+    with_type, with_value_type,
 };
 
 type St = State<'static, TagProblem>;
 
 enum G<'r> {
-    Sh(Ref<'r, u32>),
-    Ex(RefMut<'r, u32>),
+    Sh(Ref<'r, dyn Valued>),
+    Ex(RefMut<'r, dyn Valued>),
 }
 
 impl G<'_> {
     fn value(&self) -> u32 {
         match self {
-            G::Sh(g) => **g,
-            G::Ex(g) => **g,
+            G::Sh(g) => g.val(),
+            G::Ex(g) => g.val(),
         }
     }
+}
+
+fn sh<'r, T: Valued + 'static>(g: Ref<'r, T>) -> G<'r> {
+    G::Sh(Ref::map(g, |x| x as &dyn Valued))
+}
+fn ex<'r, T: Valued + 'static>(g: RefMut<'r, T>) -> G<'r> {
+    G::Ex(RefMut::map(g, |x| x as &mut dyn Valued))
 }
 
 #[derive(Clone)]
@@ -50,15 +56,17 @@ struct GuardMeta {
 struct HeldMeta {
     t: String,
     i: usize,
-    ptr: *mut u32,
+    ptr: *mut dyn Valued,
 }
 
 /// What the act source is told about the current situation.
 pub struct Info {
     pub depth: usize,
     pub live: Vec<(usize, &'static str)>, // (slot (1-based), kind)
+    pub live_types: Vec<(usize, String)>,  // (slot (1-based), guarded type)
     pub free_slots: usize,
     pub held: usize,
+    pub held_top_is_log: bool,
     pub min_poppable: bool,
 }
 
@@ -125,8 +133,10 @@ impl Session<'_> {
         Info {
             depth,
             live: self.guards.iter().enumerate().filter_map(|(g, m)| m.as_ref().map(|m| (g + 1, m.k))).collect(),
+            live_types: self.guards.iter().enumerate().filter_map(|(g, m)| m.as_ref().map(|m| (g + 1, m.t.clone()))).collect(),
             free_slots: self.guards.iter().filter(|m| m.is_none()).count(),
             held: self.held.len(),
+            held_top_is_log: self.held.last().map(|h| h.t == "Log").unwrap_or(false),
             min_poppable: self.held.iter().all(|h| h.i < depth),
         }
     }
@@ -165,7 +175,7 @@ impl Session<'_> {
             })
             .collect();
         let held: Vec<Value> =
-            self.held.iter().map(|h| json!({"t": h.t, "i": h.i, "v": unsafe { *h.ptr }})).collect();
+            self.held.iter().map(|h| json!({"t": h.t, "i": h.i, "v": unsafe { (*h.ptr).val() }})).collect();
         let rec = json!({"run": self.run, "i": self.i, "act": a, "res": res, "scopes": self.project(reg),
                          "guards": guards, "held": held});
         self.out.emit(&rec);
@@ -173,22 +183,82 @@ impl Session<'_> {
     }
 }
 
-fn acquire<'r, T: Marker>(reg: &'r Reg, f: &str) -> Result<Result<G<'r>, StateError>, String> {
+type Got<'r> = Result<Result<G<'r>, &'static str>, String>;
+
+fn acquire<'r, T: Marker>(reg: &'r Reg, f: &str) -> Got<'r> {
+    let e = |x: StateError| err_kind(&x);
     match f {
-        "try_borrow" => Ok(reg.try_borrow::<T>().map(|g| G::Sh(Ref::map(g, |x| x.deref())))),
-        "try_borrow_value" => Ok(reg.try_borrow_value::<T>().map(G::Sh)),
-        "try_borrow_mut" => Ok(reg.try_borrow_mut::<T>().map(|g| G::Ex(RefMut::map(g, |x| &mut **x)))),
-        "try_borrow_value_mut" => Ok(reg.try_borrow_value_mut::<T>().map(G::Ex)),
-        "borrow" => caught(|| Ok(G::Sh(Ref::map(reg.borrow::<T>(), |x| x.deref())))),
-        "borrow_value" => caught(|| Ok(G::Sh(reg.borrow_value::<T>()))),
-        "borrow_mut" => caught(|| Ok(G::Ex(RefMut::map(reg.borrow_mut::<T>(), |x| &mut **x)))),
-        "borrow_value_mut" => caught(|| Ok(G::Ex(reg.borrow_value_mut::<T>()))),
+        "try_borrow" => Ok(reg.try_borrow::<T>().map(sh).map_err(e)),
+        "try_borrow_mut" => Ok(reg.try_borrow_mut::<T>().map(ex).map_err(e)),
+        "borrow" => caught(|| Ok(sh(reg.borrow::<T>()))),
+        "borrow_mut" => caught(|| Ok(ex(reg.borrow_mut::<T>()))),
         other => panic!("unknown acquire form {other}"),
     }
 }
 
+fn acquire_value<'r, T: ValueMarker>(reg: &'r Reg, f: &str) -> Got<'r> {
+    let e = |x: StateError| err_kind(&x);
+    match f {
+        "try_borrow_value" => Ok(reg.try_borrow_value::<T>().map(sh).map_err(e)),
+        "try_borrow_value_mut" => Ok(reg.try_borrow_value_mut::<T>().map(ex).map_err(e)),
+        "borrow_value" => caught(|| Ok(sh(reg.borrow_value::<T>()))),
+        "borrow_value_mut" => caught(|| Ok(ex(reg.borrow_value_mut::<T>()))),
+        other => panic!("unknown acquire form {other}"),
+    }
+}
+
+/// the convenience accessors of `State` that hand out a guard
+fn acquire_accessor<'r>(st: &'r St, f: &str) -> Got<'r> {
+    match f {
+        "state.best_individual" => caught(|| st.best_individual().map(sh).ok_or("none")),
+        "state.populations" => caught(|| Ok(sh(st.populations()))),
+        "state.populations_mut" => caught(|| Ok(ex(st.populations_mut()))),
+        "state.random_mut" => caught(|| Ok(ex(st.random_mut()))),
+        "state.log" => caught(|| Ok(sh(st.log()))),
+        other => panic!("accessor {other} does not return a guard"),
+    }
+}
+
+/// a convenience accessor of `State` used and dropped at once: read (v = None) or written through (v = Some)
+fn use_accessor(st: &St, f: &str, v: Option<u32>, nt: usize) -> Value {
+    let p = |x: Result<i64, String>| match x {
+        Ok(v) => r("ok", v, nt),
+        Err(_) => r("panic", NOVAL, nt),
+    };
+    // (the Option readers are not supposed to panic: a panic is recorded as the reply it is)
+    let o = |x: Result<Option<i64>, String>| match x {
+        Ok(Some(v)) => r("ok", v, nt),
+        Ok(None) => r("none", NOVAL, nt),
+        Err(_) => r("panic", NOVAL, nt),
+    };
+    match (f, v) {
+        ("state.iterations", None) => p(caught(|| st.iterations() as i64)),
+        ("state.evaluations", None) => p(caught(|| st.evaluations() as i64)),
+        ("state.best_individual", None) => o(caught(|| st.best_individual().map(|g| g.val() as i64))),
+        ("state.best_objective_value", None) => o(caught(|| st.best_objective_value().map(|x| x.value() as i64))),
+        ("state.populations", None) => p(caught(|| st.populations().val() as i64)),
+        ("state.populations_mut", None) => p(caught(|| st.populations_mut().val() as i64)),
+        ("state.random_mut", None) => p(caught(|| st.random_mut().val() as i64)),
+        ("state.log", None) => p(caught(|| st.log().val() as i64)),
+        ("state.populations_mut", Some(v)) => p(caught(|| {
+            let mut g = st.populations_mut();
+            let old = g.val();
+            g.put(v);
+            old as i64
+        })),
+        ("state.random_mut", Some(v)) => p(caught(|| {
+            let mut g = st.random_mut();
+            let old = g.val();
+            g.put(v);
+            old as i64
+        })),
+        other => panic!("unknown accessor use {other:?}"),
+    }
+}
+
 /// Runs `&self` calls with live guards until a call needing `&mut self` shows up (left in `pending`).
-fn guard_phase<'r>(sess: &mut Session, reg: &'r Reg, first: Value) {
+fn guard_phase<'r>(sess: &mut Session, st: &'r St, first: Value) {
+    let reg: &'r Reg = st;
     let mut guards: Vec<Option<G<'r>>> = (0..sess.maxg).map(|_| None).collect();
     let nt = sess.nt;
     let mut a = first;
@@ -213,10 +283,17 @@ fn guard_phase<'r>(sess: &mut Session, reg: &'r Reg, first: Value) {
                     }
                 };
                 let cell = innermost(reg, t, d);
-                let got = with_type!(t, T => acquire::<T>(ancestor(reg, d), f));
+                let got = if f.starts_with("state.") {
+                    assert!(d == 0, "accessors exist on State only");
+                    acquire_accessor(st, f)
+                } else if is_value_form("acquire", f) {
+                    with_value_type!(t, T => acquire_value::<T>(ancestor(reg, d), f))
+                } else {
+                    with_type!(t, T => acquire::<T>(ancestor(reg, d), f))
+                };
                 match got {
                     Err(_) => r("panic", NOVAL, nt),
-                    Ok(Err(e)) => r(err_kind(&e), NOVAL, nt),
+                    Ok(Err(kind)) => r(kind, NOVAL, nt),
                     Ok(Ok(g)) => {
                         let value = g.value();
                         let k = if matches!(g, G::Ex(_)) { "ex" } else { "sh" };
@@ -245,12 +322,17 @@ fn guard_phase<'r>(sess: &mut Session, reg: &'r Reg, first: Value) {
                 let w = a["w"].as_u64().unwrap() as u32;
                 match guards[g].as_mut() {
                     Some(G::Ex(x)) => {
-                        let old = std::mem::replace(&mut **x, w);
+                        let old = x.val();
+                        x.put(w);
                         sess.guards[g].as_mut().unwrap().value = w;
                         r("ok", old as i64, nt)
                     }
                     _ => r("dead_guard", NOVAL, nt),
                 }
+            }
+            "read" | "write" if a["f"].as_str().unwrap().starts_with("state.") => {
+                let v = if op == "write" { Some(a["v"].as_u64().unwrap() as u32) } else { None };
+                use_accessor(st, a["f"].as_str().unwrap(), v, nt)
             }
             _ => match exec_shared(reg, &a, nt) {
                 Some(res) => res,
@@ -287,11 +369,19 @@ macro_rules! multi_arm_impl {
     ($reg:expr, $vs:expr, $f:expr, $nt:expr; $($x:ident : $T:ident),+) => {{
         let reg: &mut Reg = $reg;
         let vs: &[u32] = $vs;
+        if $f == "tuple_distinct" {
+            // the tuple trait's own predicate
+            let d = <($($T),+) as mahf::state::registry::MultiStateTuple>::distinct();
+            r("bool", d as i64, $nt)
+        } else {
         let outcome: Result<Result<i64, mahf::StateError>, String> = {
-            let got = if $f == "get_multiple_mut" {
-                $crate::util::caught(|| Ok(reg.get_multiple_mut::<($($T),+)>()))
-            } else {
-                Ok(reg.try_get_multiple_mut::<($($T),+)>())
+            // every public entry point: the panicking and the checked registry method, and the (safe, public)
+            // method of the tuple trait itself
+            let got = match $f {
+                "get_multiple_mut" => $crate::util::caught(|| Ok(reg.get_multiple_mut::<($($T),+)>())),
+                "try_get_multiple_mut" => Ok(reg.try_get_multiple_mut::<($($T),+)>()),
+                "tuple_try_get_mut" => Ok(<($($T),+) as mahf::state::registry::MultiStateTuple>::try_get_mut(reg)),
+                other => panic!("unknown multi-borrow form {other}"),
             };
             match got {
                 Err(p) => Err(p),
@@ -304,9 +394,12 @@ macro_rules! multi_arm_impl {
                             distinct &= ptrs[i] != ptrs[j];
                         }
                     }
-                    let mut k = 0;
-                    $( **$x = vs[k]; k += 1; )+
-                    let _ = k;
+                    // (aliasing references are reported, never written through)
+                    if distinct {
+                        let mut k = 0;
+                        $( $x.put(vs[k]); k += 1; )+
+                        let _ = k;
+                    }
                     Ok(Ok(distinct as i64))
                 }
             }
@@ -315,13 +408,14 @@ macro_rules! multi_arm_impl {
             Err(_) => r("panic", $crate::util::NOVAL, $nt),
             Ok(Err(e)) => r(err_kind(&e), $crate::util::NOVAL, $nt),
             Ok(Ok(distinct)) => {
-                // read every written value back through an ordinary lookup
+                // read every written value back through an ordinary lookup from the same view
                 let mut k = 0;
                 let mut back = true;
-                $( back &= reg.try_get_value::<$T>().map(|v| v == vs[k]).unwrap_or(false); k += 1; )+
+                $( back &= reg.try_borrow::<$T>().map(|g| g.val() == vs[k]).unwrap_or(false); k += 1; )+
                 let _ = k;
                 r("ok", (distinct == 1 && back) as i64, $nt)
             }
+        }
         }
     }};
 }
@@ -344,8 +438,9 @@ fn run_body(sess: &mut Session, state: &mut St, in_hold: bool) -> Option<(Value,
                 let ts: Vec<String> = a["ts"].as_array().unwrap().iter().map(|x| x.as_str().unwrap().to_string()).collect();
                 let vs: Vec<u32> = a["vs"].as_array().unwrap().iter().map(|x| x.as_u64().unwrap() as u32).collect();
                 let f = a["f"].as_str().unwrap();
+                let d = a["d"].as_u64().unwrap() as usize;
                 let key = ts.join(",");
-                let res = multi_gen::dispatch(&mut **state, &key, &vs, f, nt)
+                let res = multi_gen::dispatch(ancestor_mut(&mut **state, d), &key, &vs, f, nt)
                     .unwrap_or_else(|| panic!("tuple {key} not instantiated"));
                 sess.emit(state, &a, res);
             }
@@ -356,11 +451,11 @@ fn run_body(sess: &mut Session, state: &mut St, in_hold: bool) -> Option<(Value,
                 let mut exit: Option<(Value, bool, i64)> = None;
                 let result = with_type!(t.as_str(), T => state.holding::<T>(|tref, st| {
                     entered = true;
-                    let old = **tref as i64;
-                    sess.held.push(HeldMeta { t: t.clone(), i: cell, ptr: &mut **tref as *mut u32 });
+                    let old = tref.val() as i64;
+                    sess.held.push(HeldMeta { t: t.clone(), i: cell, ptr: tref as *mut T as *mut dyn Valued });
                     sess.emit(st, &a, r("ok", old, nt));
                     let end = run_body(sess, st, true);
-                    let v = **tref as i64;
+                    let v = tref.val() as i64;
                     sess.held.pop();
                     match end {
                         Some((exit_act, ok)) => {
@@ -392,10 +487,10 @@ fn run_body(sess: &mut Session, state: &mut St, in_hold: bool) -> Option<(Value,
                 let mut seen_inside = NOVAL;
                 let result = crate::util::caught(std::panic::AssertUnwindSafe(|| {
                     with_type!(t.as_str(), T => state.with_inner_state(|inner| {
-                        inner.insert(T::from(v));
-                        seen_inside = inner.try_get_value::<T>().map(|x| x as i64).unwrap_or(NOVAL);
+                        inner.insert(T::mk(v));
+                        seen_inside = inner.try_borrow::<T>().map(|x| x.val() as i64).unwrap_or(NOVAL);
                         if fail { Err(eyre::eyre!("inner run failed")) } else { Ok(()) }
-                    }).map(|child| with_type!(t.as_str(), U => child.try_get_value::<U>().map(|x| x as i64).unwrap_or(NOVAL))))
+                    }).map(|child| with_type!(t.as_str(), U => child.try_borrow::<U>().map(|x| x.val() as i64).unwrap_or(NOVAL))))
                 }));
                 let res = match result {
                     Err(_) => r("panic", NOVAL, nt),
@@ -410,7 +505,11 @@ fn run_body(sess: &mut Session, state: &mut St, in_hold: bool) -> Option<(Value,
             "hold_write" => {
                 let v = a["v"].as_u64().unwrap() as u32;
                 let h = sess.held.last().unwrap();
-                let old = unsafe { std::mem::replace(&mut *h.ptr, v) };
+                let old = unsafe {
+                    let old = (*h.ptr).val();
+                    (*h.ptr).put(v);
+                    old
+                };
                 sess.emit(state, &a, r("ok", old as i64, nt));
             }
             "hold_exit" => {
@@ -434,7 +533,6 @@ struct RandomSrc {
     nvals: u32,
     maxdepth: usize,
     maxhold: usize,
-    big: bool,
 }
 
 impl Source for RandomSrc {
@@ -445,16 +543,26 @@ impl Source for RandomSrc {
         self.left -= 1;
         let rng = &mut self.rng;
         let nt = self.nt;
-        let t = TYPE_NAMES[rng.gen_range(0..nt)];
-        let v = rng.gen_range(0..self.nvals) as i64;
+        let t = universe()[rng.gen_range(0..universe().len())];
+        // (a Log has one abstract value only)
+        let v = if t == "Log" { 0 } else { rng.gen_range(0..self.nvals) as i64 };
         let d = if rng.gen_bool(0.6) { 0 } else { rng.gen_range(0..info.depth) };
         let e = json!([]);
+        // the convenience accessors of State that concern type t
+        let acc: Vec<&'static str> = ACCESSORS.iter().filter(|(_, ty, _, _)| *ty == t).map(|(f, _, _, _)| *f).collect();
+        let acc_guard: Vec<&'static str> =
+            ACCESSORS.iter().filter(|(_, ty, g, _)| *ty == t && *g).map(|(f, _, _, _)| *f).collect();
+        let acc_ex: Vec<&'static str> =
+            ACCESSORS.iter().filter(|(_, ty, _, x)| *ty == t && *x).map(|(f, _, _, _)| *f).collect();
         let shared = |rng: &mut ChaCha8Rng| -> Value {
             loop {
                 match rng.gen_range(0..100) {
                     0..=34 if info.free_slots > 0 => {
-                        let f = *["try_borrow", "try_borrow_value", "try_borrow_mut", "try_borrow_value_mut", "borrow",
-                                  "borrow_value", "borrow_mut", "borrow_value_mut"].choose(rng).unwrap();
+                        if !acc_guard.is_empty() && rng.gen_bool(0.4) {
+                            return bact("acquire", t, NOVAL, NOVAL, 0, acc_guard.choose(rng).unwrap(), json!([]), json!([]));
+                        }
+                        let f = *forms_for(t, "acquire", &["try_borrow", "try_borrow_value", "try_borrow_mut", "try_borrow_value_mut",
+                                  "borrow", "borrow_value", "borrow_mut", "borrow_value_mut"]).choose(rng).unwrap();
                         return bact("acquire", t, NOVAL, NOVAL, d, f, json!([]), json!([]));
                     }
                     35..=54 if !info.live.is_empty() => {
@@ -468,12 +576,24 @@ impl Source for RandomSrc {
                     63..=72 => {
                         let ex: Vec<_> = info.live.iter().filter(|(_, k)| *k == "ex").collect();
                         if let Some((g, _)) = ex.choose(rng) {
-                            return bact("write_via", "-", *g as i64, v, 0, "-", json!([]), json!([]));
+                            // (the value written must be one the guarded type can carry)
+                            let w = if info.live_types.iter().any(|(s, ty)| s == g && ty == "Log") { 0 } else { v };
+                            return bact("write_via", "-", *g as i64, w, 0, "-", json!([]), json!([]));
                         }
                     }
-                    73..=82 => return bact("read", t, NOVAL, NOVAL, d, READ_FORMS.choose(rng).unwrap(), json!([]), json!([])),
-                    83..=90 => return bact("write", t, v, NOVAL, d, WRITE_FORMS.choose(rng).unwrap(), json!([]), json!([])),
-                    91..=96 => return bact("set_value", t, v, NOVAL, d, "-", json!([]), json!([])),
+                    73..=82 => {
+                        if !acc.is_empty() && rng.gen_bool(0.5) {
+                            return bact("read", t, NOVAL, NOVAL, 0, acc.choose(rng).unwrap(), json!([]), json!([]));
+                        }
+                        return bact("read", t, NOVAL, NOVAL, d, forms_for(t, "read", &READ_FORMS).choose(rng).unwrap(), json!([]), json!([]));
+                    }
+                    83..=90 => {
+                        if !acc_ex.is_empty() && rng.gen_bool(0.5) {
+                            return bact("write", t, v, NOVAL, 0, acc_ex.choose(rng).unwrap(), json!([]), json!([]));
+                        }
+                        return bact("write", t, v, NOVAL, d, forms_for(t, "write", &WRITE_FORMS).choose(rng).unwrap(), json!([]), json!([]));
+                    }
+                    91..=96 if is_value_type(t) => return bact("set_value", t, v, NOVAL, d, "-", json!([]), json!([])),
                     97..=99 => return bact("contains", t, NOVAL, NOVAL, d, "-", json!([]), json!([])),
                     _ => {}
                 }
@@ -486,24 +606,23 @@ impl Source for RandomSrc {
             0..=29 => shared(rng),
             30..=44 => {
                 // multi-borrow
-                let f = if rng.gen_bool(0.8) { "try_get_multiple_mut" } else { "get_multiple_mut" };
-                let key = if self.big {
-                    multi_gen::KEYS[rng.gen_range(0..multi_gen::KEYS.len())]
-                } else {
-                    loop {
-                        let k = multi_gen::KEYS[rng.gen_range(0..multi_gen::KEYS.len())];
-                        if k.split(',').all(|x| TYPE_NAMES[..nt].contains(&x)) {
-                            break k;
-                        }
+                let f = *["try_get_multiple_mut", "try_get_multiple_mut", "tuple_try_get_mut", "tuple_try_get_mut",
+                          "get_multiple_mut", "tuple_distinct"].choose(rng).unwrap();
+                let key = loop {
+                    let k = multi_gen::KEYS[rng.gen_range(0..multi_gen::KEYS.len())];
+                    if k.split(',').all(|x| universe().contains(&x)) {
+                        break k;
                     }
                 };
                 let ts: Vec<&str> = key.split(',').collect();
                 let vs: Vec<u32> = ts.iter().map(|_| rng.gen_range(0..self.nvals)).collect();
-                bact("multi", "-", NOVAL, NOVAL, 0, f, json!(ts), json!(vs))
+                bact("multi", "-", NOVAL, NOVAL, d, f, json!(ts), json!(vs))
             }
             45..=53 if info.held < self.maxhold => bact("hold_enter", t, NOVAL, NOVAL, 0, "-", e.clone(), e),
             54..=56 => bact("inner", t, v, NOVAL, 0, if rng.gen_bool(0.5) { "ok" } else { "fail" }, e.clone(), e),
-            57..=63 if info.held > 0 => bact("hold_write", "-", v, NOVAL, 0, "-", e.clone(), e),
+            57..=63 if info.held > 0 => {
+                bact("hold_write", "-", if info.held_top_is_log { 0 } else { v }, NOVAL, 0, "-", e.clone(), e)
+            }
             64..=75 if info.held > 0 => {
                 bact("hold_exit", "-", NOVAL, NOVAL, 0, if rng.gen_bool(0.5) { "ok" } else { "fail" }, e.clone(), e)
             }
@@ -560,8 +679,20 @@ fn session(out: &mut Out, run: u64, nt: usize, maxg: usize, src: Box<dyn Source>
     }
 }
 
+/// (accessor, the type it looks up, returns a guard, exclusive)
+const ACCESSORS: [(&str, &str, bool, bool); 8] = [
+    ("state.iterations", "Iterations", false, false),
+    ("state.evaluations", "Evaluations", false, false),
+    ("state.best_individual", "BestIndividual", true, false),
+    ("state.best_objective_value", "BestIndividual", false, false),
+    ("state.populations", "Populations", true, false),
+    ("state.populations_mut", "Populations", true, true),
+    ("state.random_mut", "Random", true, true),
+    ("state.log", "Log", true, false),
+];
+
 pub fn main(args: &Args) -> usize {
-    let nt = args.num("types", 2) as usize;
+    let nt = set_universe(args).len();
     let maxg = args.num("maxg", 2) as usize;
     let mut out = Out::create(&args.str("out"));
     match args.mode.as_str() {
@@ -582,7 +713,6 @@ pub fn main(args: &Args) -> usize {
                     nvals: args.num("vals", 3) as u32,
                     maxdepth: args.num("maxdepth", 3) as usize,
                     maxhold: args.num("maxhold", 3) as usize,
-                    big: args.num("big", 0) == 1,
                 };
                 session(&mut out, run, nt, maxg, Box::new(src));
             }
